@@ -3,6 +3,7 @@ import L21.Model.GdsFloat
 import L21.Model.Dep
 import L21.Model.Geom
 import L21.Model.Aff
+import L21.Driver.GdsIO
 /-
 Line-protocol operations: `<op> <sexpr>*` ↦ result line.
 -/
@@ -129,6 +130,9 @@ def dispatch (op : String) (args : List Sexp) : String :=
   match op with
   | "f.enc" => opFEnc args
   | "f.dec" => opFDec args
+  | "gds.write" => opGdsWrite args
+  | "gds.read" => opGdsRead args
+  | "gds.c03" => opGdsRead (args.take 1)
   | "tf.apply" => opTfApply args
   | "tf.general" => "unsupported"
   | "raw.flatten" => opFlatten args
